@@ -131,7 +131,15 @@ class Reporter:
         """Accumulate states/transitions of a TLC run."""
         self.cov["states"] += res.distinct
         self.cov["transitions"] += res.generated
-        self.notes.setdefault("tlc_runs", []).append(res.summary())
+        mod = res.cmd[-1]
+        agg = self.notes.setdefault("tlc_runs", {}).setdefault(
+            mod, {"runs": 0, "states": 0, "transitions": 0, "max_depth": 0, "max_wall_s": 0.0}
+        )
+        agg["runs"] += 1
+        agg["states"] += res.distinct
+        agg["transitions"] += res.generated
+        agg["max_depth"] = max(agg["max_depth"], res.depth)
+        agg["max_wall_s"] = max(agg["max_wall_s"], round(res.wall, 2))
 
     # -- rejections -------------------------------------------------------
     def reject(self, clause: str, facts: dict, replay: dict):
